@@ -23,12 +23,27 @@ vars == << l >>
 M13(d) == IF d[1] = 1 /\ d[3] >= 0 /\ d[3] <= 13 /\ Abs(d[2]) <= 262144 \div Pow2(13 - d[3])
             THEN [ok |-> TRUE, v |-> d[2] * Pow2(13 - d[3])] ELSE [ok |-> FALSE, v |-> 0]
 
-(* gradient-space coordinate of row (a, b, c) at pixel centre (x + 1/2, y + 1/2), units 2^-12 *)
+(* a translation [1, k, q] with q < 0 is k * 2^-q, an even integer; with |k| >= 2^20 (or q <= -20) its   *)
+(* magnitude is >= 2^20, far beyond every other term -- it decides on which side of [0,1] the offset   *)
+(* lies and is invisible modulo 2                                                                      *)
+Far(c) == IF c[1] = 1 /\ c[3] < 0 /\ (Abs(c[2]) >= 1048576 \/ (c[3] <= -20 /\ c[2] # 0))
+          THEN (IF c[2] > 0 THEN 1 ELSE -1) ELSE 0
+
+(* gradient-space coordinate of row (a, b, c) at pixel centre (x + 1/2, y + 1/2), units 2^-12;        *)
+(* far # 0: v is the coordinate modulo the far translation                                             *)
 Row12(a, b, c, x, y) ==
-  LET A == M13(a)  Bb == M13(b)  C == M13(c) IN
-  IF ~(A.ok /\ Bb.ok /\ C.ok) \/ Abs(x) > 2000 \/ Abs(y) > 2000 THEN [ok |-> FALSE, v |-> 0]
+  LET A == M13(a)  Bb == M13(b)  C == IF Far(c) # 0 THEN [ok |-> TRUE, v |-> 0] ELSE M13(c) IN
+  IF ~(A.ok /\ Bb.ok /\ C.ok) \/ Abs(x) > 2000 \/ Abs(y) > 2000 THEN [ok |-> FALSE, v |-> 0, far |-> 0]
   ELSE LET g26 == A.v * (2 * x + 1) + Bb.v * (2 * y + 1) + 2 * C.v IN     \* units of 2^-14
-       IF g26 % 4 = 0 /\ Abs(g26 \div 4) <= 40000 THEN [ok |-> TRUE, v |-> g26 \div 4] ELSE [ok |-> FALSE, v |-> 0]
+       IF g26 % 4 = 0 /\ Abs(g26 \div 4) <= 40000 THEN [ok |-> TRUE, v |-> g26 \div 4, far |-> Far(c)]
+       ELSE [ok |-> FALSE, v |-> 0, far |-> 0]
+
+(* spread rules for an offset v + (far translation) *)
+FarClamp(spread, v, far) ==
+  CASE spread = 1 -> IF far < 0 THEN 0 ELSE T12
+    [] spread = 2 -> Reflect(v)
+    [] spread = 3 -> Mod(v, T12)
+    [] OTHER -> -1
 
 Stops12(ev) ==
   [i \in 1..Len(ev.stops) |-> [c |-> ev.stops[i].c, o |-> AsScaled(ev.stops[i].o, 12).k]]
@@ -54,12 +69,12 @@ JudgePix(ev) ==
   IF ~Premul(ev.got) THEN "result is not a premultiplied colour"
   ELSE IF ev.shape = 0 THEN
     IF ~gx.ok THEN "unjudged"
-    ELSE LET u == Clamp(ev.spread, gx.v)
+    ELSE LET u == IF gx.far # 0 THEN FarClamp(ev.spread, gx.v, gx.far) ELSE Clamp(ev.spread, gx.v)
              E == IF u = -1 THEN << 0, 0, 0, 0 >> ELSE ColorAt(S, u)
              k == IF u = -1 THEN 0 ELSE Slack(S, u) IN
          IF \A ch \in 1..4 : Abs(ev.got[ch] - E[ch]) <= k THEN "ok" ELSE "linear gradient colour"
   ELSE
-    IF ~gx.ok \/ ~gy.ok \/ Abs(gx.v) > 32000 \/ Abs(gy.v) > 32000 THEN "unjudged"
+    IF ~gx.ok \/ ~gy.ok \/ gx.far # 0 \/ gy.far # 0 \/ Abs(gx.v) > 32000 \/ Abs(gy.v) > 32000 THEN "unjudged"
     ELSE LET n  == gx.v * gx.v + gy.v * gy.v
              s  == ISqrt(n)
              u0 == Clamp(ev.spread, s)
